@@ -275,6 +275,12 @@ func wrapperInner(fn *ssa.Function) *ssa.Call {
 
 func descCall(c *ssa.Call, depth int) string {
 	com := c.Common()
+	// a helper the audited tree does not have cannot be named in an audited row: what it
+	// returns is described like a value built on the spot, by its type
+	if f := com.StaticCallee(); f != nil && descParamLabel == nil && auditedFnNames != nil && isModFunc(f) && f.Parent() == nil && f.Synthetic == "" &&
+		!auditedFnNames[shortName(f)] && wrapperInner(f) == nil {
+		return "val:" + typeDesc(c.Type())
+	}
 	if f := com.StaticCallee(); f != nil && descParamLabel == nil && len(f.Params) == len(com.Args) && depth < 6 {
 		if inner := wrapperInner(f); inner != nil {
 			saved := map[*ssa.Parameter]string{}
